@@ -23,6 +23,15 @@ def freezeBody : String :=
 def cacheFields : List String :=
   ["m", "entries", "onceM"]
 
+def entryRemovals : List String :=
+  []
+
+def packageVars : List String :=
+  ["builtin_cache"]
+
+def packageConsts : List String :=
+  []
+
 def mutexType : String :=
   "sync.RWMutex"
 
